@@ -334,3 +334,12 @@ pub fn alias_bits(bits: u128) -> Option<(u32, u32)> {
         _ => return None,
     })
 }
+
+/// (2^log2 + 3) copies of `fill` followed by `tail`: inputs whose LENGTH exceeds what a u32 can hold (C10)
+pub fn huge_str(log2: u32, fill: u8, tail: &[u8]) -> String {
+    let n = (1usize << log2) + 3;
+    let mut v = Vec::with_capacity(n + tail.len());
+    v.resize(n, fill);
+    v.extend_from_slice(tail);
+    String::from_utf8(v).unwrap()
+}
